@@ -292,7 +292,7 @@ func (V *Verifier) verifyFuncMode(fi *FuncInfo, fct *FuncContract, ceUnroll int)
 	st := &State{fc: fc, vars: map[types.Object]Val{}, ghost: map[string]Val{}, heap: map[string]string{}, locks: map[string]int{}}
 	fc.declare("g_alloc0", "Int")
 	st.alloc = "g_alloc0"
-	st.facts = st.facts.push(sCmp("<=", "1", "g_alloc0"))
+	st.addFact(sCmp("<=", "1", "g_alloc0"))
 	info := fi.Pkg.Info
 	names := map[string]Val{}
 	// receiver
@@ -301,7 +301,7 @@ func (V *Verifier) verifyFuncMode(fi *FuncInfo, fct *FuncContract, ceUnroll int)
 		if obj, ok := info.Defs[id].(*types.Var); ok && obj != nil {
 			v := st.freshVal(id.Name, obj.Type())
 			if v.K == KInt && classify(obj.Type()) == tcPtr {
-				st.facts = st.facts.push(sNot(sEq(v.S, "0")))
+				st.addFact(sNot(sEq(v.S, "0")))
 				fc.noteAssumption("method receivers are non-nil")
 			}
 			st.vars[obj] = v
@@ -329,9 +329,9 @@ func (V *Verifier) verifyFuncMode(fi *FuncInfo, fct *FuncContract, ceUnroll int)
 		st.vars[p] = v
 		fc.addInputs(p.Name(), v)
 		if ceUnroll > 0 && (v.K == KSlice || v.K == KString) {
-			st.facts = st.facts.push(sCmp("<=", v.length(), "10"))
+			st.addFact(sCmp("<=", v.length(), "10"))
 			if v.K == KSlice {
-				st.facts = st.facts.push(sAnd(sCmp("<=", v.capa(), "12"), sCmp("<=", v.off(), "4")))
+				st.addFact(sAnd(sCmp("<=", v.capa(), "12"), sCmp("<=", v.off(), "4")))
 			}
 		}
 	}
@@ -343,7 +343,7 @@ func (V *Verifier) verifyFuncMode(fi *FuncInfo, fct *FuncContract, ceUnroll int)
 					for i := 0; i < s.NumFields(); i++ {
 						fv := st.loadField(nil, v.S, structT, s.Field(i).Name())
 						for _, f := range st.typeFacts(fv) {
-							st.facts = st.facts.push(sImp(sNot(sEq(v.S, "0")), f))
+							st.addFact(sImp(sNot(sEq(v.S, "0")), f))
 						}
 					}
 				}
@@ -381,7 +381,7 @@ func (V *Verifier) verifyFuncMode(fi *FuncInfo, fct *FuncContract, ceUnroll int)
 			}
 			for _, inv := range pc.Globals[g].Invariants {
 				env := fc.newSpecEnv(st, nil, nil, bodyPos, fc.Name+"/global:"+g)
-				st.facts = st.facts.push(env.evalBool(inv.Expr))
+				st.addFact(env.evalBool(inv.Expr))
 			}
 		}
 	}
@@ -392,7 +392,7 @@ func (V *Verifier) verifyFuncMode(fi *FuncInfo, fct *FuncContract, ceUnroll int)
 	fc.entrySnap = st.snapshot(nil)
 	for _, r := range fct.Requires {
 		env := fc.newSpecEnv(st, nil, nil, bodyPos, fc.Name+"/requires")
-		st.facts = st.facts.push(env.evalBool(r.Expr))
+		st.addFact(env.evalBool(r.Expr))
 	}
 	for _, u := range fct.Uses {
 		st.assumeLemma(u, bodyPos)
@@ -414,9 +414,9 @@ func (V *Verifier) verifyFuncMode(fi *FuncInfo, fct *FuncContract, ceUnroll int)
 			for _, v := range fct.Split.Values {
 				ds = append(ds, sNot(sEq(e, sIntLit(v))))
 			}
-			st.facts = st.facts.push(sAnd(ds...))
+			st.addFact(sAnd(ds...))
 		} else {
-			st.facts = st.facts.push(sEq(e, sIntLit(V.splitValue)))
+			st.addFact(sEq(e, sIntLit(V.splitValue)))
 		}
 	}
 	// vacuity cover: the precondition must be satisfiable
@@ -821,7 +821,7 @@ func (st *State) assumeLemma(name string, pos token.Pos) {
 	if len(decl) > 0 {
 		body = fmt.Sprintf("(forall (%s) %s)", strings.Join(decl, " "), body)
 	}
-	st.facts = st.facts.push(body)
+	st.addFact(body)
 	fc.noteCallee("lemma " + name)
 }
 
@@ -862,7 +862,7 @@ func (V *Verifier) verifyLemma(pkg string, lem *FuncContract) *FuncResult {
 		case "Int":
 			bind[p.Name] = vInt(c, nil)
 			if t := goTypeByName(p.Type); t != nil {
-				st.facts = st.facts.push(inRange(c, t))
+				st.addFact(inRange(c, t))
 			}
 		default:
 			bind[p.Name] = vRaw(c, srt)
@@ -871,7 +871,7 @@ func (V *Verifier) verifyLemma(pkg string, lem *FuncContract) *FuncResult {
 	q := 0
 	env := &SpecEnv{st: st, names: bind, pkg: fc.Pkg, what: "lemma " + lem.Key, qcount: &q}
 	for _, r := range lem.Requires {
-		st.facts = st.facts.push(env.evalBool(r.Expr))
+		st.addFact(env.evalBool(r.Expr))
 	}
 	for _, u := range lem.Uses {
 		st.assumeLemma(u, token.NoPos)
@@ -906,7 +906,7 @@ func (V *Verifier) verifyLemma(pkg string, lem *FuncContract) *FuncResult {
 		}
 		ih := fmt.Sprintf("(forall (%s) %s)", strings.Join(decl, " "), sImp(sAnd(append(pre, sCmp("<=", "0", m1), sCmp("<", m1, m0))...), sAnd(post...)))
 		if len(lem.IH) == 0 {
-			st.facts = st.facts.push(ih)
+			st.addFact(ih)
 		}
 		// explicit instances of the induction hypothesis (when given, the universal form is omitted: smaller queries)
 		for _, ihc := range lem.IH {
@@ -928,9 +928,9 @@ func (V *Verifier) verifyLemma(pkg string, lem *FuncContract) *FuncResult {
 			for _, e := range lem.Ensures {
 				post3 = append(post3, env3.evalBool(e.Expr))
 			}
-			st.facts = st.facts.push(sImp(sAnd(append(pre3, sCmp("<=", "0", mi), sCmp("<", mi, m0))...), sAnd(post3...)))
+			st.addFact(sImp(sAnd(append(pre3, sCmp("<=", "0", mi), sCmp("<", mi, m0))...), sAnd(post3...)))
 		}
-		st.facts = st.facts.push(sCmp("<=", "0", m0)) // cases with a negative measure must be covered by a separate lemma or be vacuous
+		st.addFact(sCmp("<=", "0", m0)) // cases with a negative measure must be covered by a separate lemma or be vacuous
 		// the negative-measure case is a separate obligation
 		for i, e := range lem.Ensures {
 			neg := st.clone()
